@@ -169,7 +169,7 @@ func (c15) Exec(c *sim.Case, env *Env) []sim.Violation {
 	var notes []c15note
 	var heads []c15head
 	nextFn, nextEn := 1, 1
-	tocMax := 0           // level of the TOC currently in the document (0 = none)
+	tocMax := 0            // level of the TOC currently in the document (0 = none)
 	var tocHeads []c15head // headings the TOC must list (as of the last TOC call)
 	obs := &histObserver{panics: true}
 	checkTOC := func(w *world.World, ds *world.Doc, when string) {
